@@ -25,9 +25,21 @@ import (
 	"verif/engine/ev"
 )
 
+var ballast []byte
+
 type part struct {
-	name string
-	run  func(r *ev.Run, v *violSet)
+	name   string
+	run    func(r *ev.Run, v *violSet)
+	quickS int // wall-clock slice of the part (seconds): quick / thorough
+	thorS  int
+}
+
+// partDeadline is the end of the running part's slice; expired() is polled by
+// every enumeration loop.  Hitting it is reported as a cap (never as a verdict).
+var partDeadline time.Time
+
+func expired(r *ev.Run) bool {
+	return r.Expired() || (!partDeadline.IsZero() && time.Now().After(partDeadline))
 }
 
 func main() {
@@ -38,7 +50,11 @@ func main() {
 		defer pprof.StopCPUProfile()
 	}
 	mkBlocks()
-	debug.SetGCPercent(400)
+	// The workload allocates short-lived iterators at a very high rate; a ballast
+	// (never touched, so not resident) keeps the GC cycle long and lets freed spans
+	// be reused instead of being returned to the OS and faulted in again.
+	ballast = make([]byte, 1<<30)
+	debug.SetGCPercent(100)
 	defer cleanupAll()
 	r.Rule("(a) every sequence of <= D inner operations (Put/Delete on 3 keys x 3 buckets, Create/CreateIfNotExists/DeleteBucket on 4 nested paths, cursor First/Last/Seek/Next/Prev/Delete, StoreBlock of 3 blocks, PruneBlocks) grouped into <= 3 committed transactions (Begin/Commit/Rollback and Update/View), plus clean reopen and a held read-only transaction, per block-file-size regime and flush policy, executed on the real ffldb and compared op by op and dump by dump with the refdb model; a case is distinct by (reference view, write set, cursor positions, committed history class); " +
 		"(a') every sequence of <= N Put/Delete/multi-Put ops on the treaps with every earlier version re-checked; " +
@@ -51,9 +67,14 @@ func main() {
 	r.Assume("treap node priorities come from math/rand (seeded by the package); tree shapes are not enumerated, only contents and iteration order are compared")
 
 	viols := &violSet{}
-	budget := 75 * time.Second
+	budget := 110 * time.Second
 	if r.Thorough() {
-		budget = 13 * time.Minute
+		budget = 14*time.Minute + 30*time.Second
+	}
+	if b := os.Getenv("C05_BUDGET_S"); b != "" { // development aid
+		var n int
+		fmt.Sscan(b, &n)
+		budget = time.Duration(n) * time.Second
 	}
 	r.SetBudget(budget)
 
@@ -67,13 +88,14 @@ func main() {
 	bindReference(r)
 
 	parts := []part{
-		{"treap", partTreap},
-		{"seq", partSeq},
-		{"fault", partFault},
-		{"crash", partCrash},
+		{"probes", partProbes, 5, 5},
+		{"treap", partTreap, 20, 90},
+		{"seq", partSeq, 40, 420},
+		{"fault", partFault, 20, 120},
+		{"crash", partCrash, 25, 240},
 		// ------------------------------------------------------------------
 		// PART (d) GOES HERE: isolation under thread schedules (vsched).
-		// Add {"sched", partSched} with
+		// Add {"sched", partSched, <quick seconds>, <thorough seconds>} with
 		//     func partSched(r *ev.Run, v *violSet)
 		// Report failures with v.add("sched/<class>", what, replayObj{Part: "d", ...}, size)
 		// and extend replayOne() below with a case for Part == "d".
@@ -86,7 +108,13 @@ func main() {
 			continue
 		}
 		t0 := time.Now()
+		slice := time.Duration(r.Pick(p.quickS, p.thorS)) * time.Second
+		if os.Getenv("C05_BUDGET_S") != "" {
+			slice = budget
+		}
+		partDeadline = t0.Add(slice)
 		p.run(r, viols)
+		partDeadline = time.Time{}
 		times[p.name] = time.Since(t0).Seconds()
 	}
 	r.Set("part_wall_seconds", times)
@@ -115,6 +143,8 @@ func main() {
 
 // replayKey re-runs a replay object and returns the violation key it produces
 // ("" when the case passes).
+var lastReplayDetail string
+
 func replayKey(rp replayObj) string {
 	switch rp.Part {
 	case "a":
@@ -125,6 +155,7 @@ func replayKey(rp replayObj) string {
 		if d == nil {
 			return ""
 		}
+		lastReplayDetail = d.String()
 		k := "seq/" + d.Class
 		if len(rp.Prior) > 0 {
 			k += "/only-after-earlier-rolled-back-transactions"
@@ -162,7 +193,7 @@ func replayOne(r *ev.Run, rp replayObj) {
 		r.Broken("%s", k)
 	}
 	if k != "" {
-		r.Violation(k, fmt.Sprintf("replayed case still fails with class %s", k), rp)
+		r.Violation(k, fmt.Sprintf("replayed case still fails with class %s %s", k, lastReplayDetail), rp)
 	}
 	cleanupAll()
 }
